@@ -5,7 +5,7 @@
 #include <string.h>
 #include <stdio.h>
 #include "../fw/hx.h"
-#include "/repo/include/bidib.h"
+#include "include/bidib.h"
 #define ZERO_RESP_TYPE MSG_SYS_CLOCK   /* worst-case answer 0 bytes: never touches the budget */
 typedef struct { int depth; uint8_t addr[4]; uint8_t type; int dlen; uint8_t data[160]; } case_t;
 static const uint8_t __attribute__((unused)) ALPHA[7] = {0x00, 0x01, 0xDD, 0xDE, 0xFD, 0xFE, 0xFF};
